@@ -194,9 +194,13 @@ Proof.
   pose proof (body_sum dom e b t b1 ok1 gas g1 Hnd Hin Eb) as Hs.
   assert (Hf : In (ntx_from t) dom) by (apply Hin, body_from_in).
   unfold pay_gas_fee. destruct (b1 (ntx_from t) <? gas * price e).
-  - intro H; inversion H; subst; clear H. exists (b (ntx_from t) - credits e (b (ntx_from t))).
-    split; [apply fee_rounding; exact Ha|].
-    unfold pay_left. rewrite sumb_pay_admins by assumption. rewrite sumb_bset_in by assumption. lia.
+  - simpl d_fee_after_body. cbv iota. destruct (b (ntx_from t) <? gas * price e).
+    + intro H; inversion H; subst; clear H. exists (b (ntx_from t) - credits e (b (ntx_from t))).
+      split; [apply fee_rounding; exact Ha|].
+      unfold pay_left. rewrite sumb_pay_admins by assumption. rewrite sumb_bset_in by assumption. lia.
+    + intro H; inversion H; subst; clear H. exists (gas * price e - credits e (gas * price e)).
+      split; [apply fee_rounding; exact Ha|].
+      rewrite sumb_pay_admins by assumption. rewrite sumb_bset_in by assumption. lia.
   - intro H; inversion H; subst; clear H. exists (gas * price e - credits e (gas * price e)).
     split; [apply fee_rounding; exact Ha|].
     rewrite sumb_pay_admins by assumption. rewrite sumb_bset_in by assumption. lia.
@@ -218,8 +222,11 @@ Proof.
     - inversion Eb; subst. split; [exact Hb | split; [lia | vm_compute; discriminate]]. }
   destruct H1 as [Hb1 [Hg1 Hgas]].
   unfold pay_gas_fee. destruct (Z.ltb_spec (b1 (ntx_from t)) (gas * price e)).
-  - intro HH; inversion HH; subst. split; [|lia]. unfold pay_left.
-    apply pay_admins_nonneg; [apply bset_nonneg; [exact Hb | lia] | apply Hb].
+  - simpl d_fee_after_body. cbv iota. destruct (Z.ltb_spec (b (ntx_from t)) (gas * price e)).
+    + intro HH; inversion HH; subst. split; [|lia]. unfold pay_left.
+      apply pay_admins_nonneg; [apply bset_nonneg; [exact Hb | lia] | apply Hb].
+    + intro HH; inversion HH; subst. split; [|lia].
+      apply pay_admins_nonneg; [apply bset_nonneg; [exact Hb | lia] | nia].
   - intro HH; inversion HH; subst. split; [|exact Hg1].
     apply pay_admins_nonneg; [apply bset_nonneg; [exact Hb1 | lia] | nia].
 Qed.
@@ -271,26 +278,47 @@ Proof.
     - inversion Eb; reflexivity.
     - destruct okc; inversion Eb; subst; [|reflexivity]. apply bset_other. intro; subst; apply Ht; auto.
     - inversion Eb; reflexivity. }
-  revert H. unfold pay_gas_fee. destruct (b1 (ntx_from t) <? gas * price e); intro H; inversion H; subst.
-  - unfold pay_left, pay_admins. rewrite pay_each_other by exact Ha. apply bset_other. exact Hfrom.
-  - unfold pay_admins. rewrite pay_each_other by exact Ha. rewrite bset_other by exact Hfrom. exact H1.
+  revert H. unfold pay_gas_fee. destruct (b1 (ntx_from t) <? gas * price e).
+  - destruct (d_fee_after_body c); [|destruct (b (ntx_from t) <? gas * price e)]; intro H; inversion H; subst.
+    + unfold pay_left, pay_admins. rewrite pay_each_other by exact Ha. apply bset_other. exact Hfrom.
+    + unfold pay_left, pay_admins. rewrite pay_each_other by exact Ha. apply bset_other. exact Hfrom.
+    + unfold pay_admins. rewrite pay_each_other by exact Ha. apply bset_other. exact Hfrom.
+  - intro H; inversion H; subst.
+    unfold pay_admins. rewrite pay_each_other by exact Ha. rewrite bset_other by exact Hfrom. exact H1.
 Qed.
 
 (** whole-balance fallback: when the fee is not affordable the body is undone, the sender is left
     with nothing and every admin receives an equal share of what the sender had *)
 Theorem whole_balance_fallback c e b t b1 ok gas g :
   ntx_body c e b t = (b1, ok, gas, g) -> b1 (ntx_from t) < gas * price e ->
+  d_fee_after_body c = true \/ b (ntx_from t) < gas * price e ->
   apply_ntx c e b t = (pay_left e b (ntx_from t), false, 0) /\
   (~ In (ntx_from t) (admins e) -> pay_left e b (ntx_from t) (ntx_from t) = 0) /\
   (NoDup (admins e) -> forall a, In a (admins e) -> a <> ntx_from t ->
      pay_left e b (ntx_from t) a = b a + b (ntx_from t) / Z.of_nat (length (admins e))).
 Proof.
-  intros Eb Hlt. split; [|split].
+  intros Eb Hlt Hwhy. split; [|split].
   - unfold apply_ntx. rewrite Eb. unfold pay_gas_fee.
-    destruct (Z.ltb_spec (b1 (ntx_from t)) (gas * price e)); [reflexivity | lia].
+    destruct (Z.ltb_spec (b1 (ntx_from t)) (gas * price e)); [|lia].
+    destruct Hwhy as [->|Hlt2]; [reflexivity|].
+    destruct (d_fee_after_body c); [reflexivity|].
+    destruct (Z.ltb_spec (b (ntx_from t)) (gas * price e)); [reflexivity | lia].
   - intro Hn. unfold pay_left, pay_admins. rewrite pay_each_other by exact Hn. apply bset_same.
   - intros Hnd a Ha Hne. unfold pay_left, pay_admins. rewrite pay_each_nodup by assumption.
     rewrite bset_other by exact Hne. reflexivity.
+Qed.
+
+(** repaired fee phase: when the body left too little but the restored balance covers the fee,
+    exactly the fee is charged (and the transaction is FAILED) *)
+Theorem fee_after_revert b t b1 ok gas g e :
+  ntx_body fcfg_fixed e b t = (b1, ok, gas, g) -> b1 (ntx_from t) < gas * price e ->
+  gas * price e <= b (ntx_from t) ->
+  apply_ntx fcfg_fixed e b t =
+    (pay_admins e (bset b (ntx_from t) (b (ntx_from t) - gas * price e)) (gas * price e), false, 0).
+Proof.
+  intros Eb Hlt Hge. unfold apply_ntx. rewrite Eb. unfold pay_gas_fee.
+  destruct (Z.ltb_spec (b1 (ntx_from t)) (gas * price e)); [|lia]. simpl d_fee_after_body. cbv iota.
+  destruct (Z.ltb_spec (b (ntx_from t)) (gas * price e)); [lia | reflexivity].
 Qed.
 
 (** a failed transfer (insufficient funds, or a negative amount under the repaired behaviour)
@@ -316,13 +344,13 @@ Definition env3 : fenv := {| admins := [100%N; 101%N; 102%N]; price := 0; genesi
 Definition b1000 : bals := of_alist [(1%N, 1000)].
 
 Theorem self_transfer_refuted :
-  exists b' oks g, apply_block {| d_self_transfer := true; d_neg_amount := false |} env3 b1000
+  exists b' oks g, apply_block {| d_self_transfer := true; d_neg_amount := false; d_fee_after_body := false |} env3 b1000
                      [NTransfer 1%N 1%N (ADec 400)] = (b', oks, g) /\
     conserve_b [1%N; 100%N; 101%N; 102%N] b1000 b' g = false.
 Proof. eexists; eexists; eexists. split; [reflexivity | vm_compute; reflexivity]. Qed.
 
 Theorem neg_amount_refuted :
-  exists b' oks g, apply_block {| d_self_transfer := false; d_neg_amount := true |} env3 b1000
+  exists b' oks g, apply_block {| d_self_transfer := false; d_neg_amount := true; d_fee_after_body := false |} env3 b1000
                      [NTransfer 1%N 2%N (ADec (-30))] = (b', oks, g) /\
     oks = [true] /\ b' 1%N = 1030 /\ b' 2%N = -30 /\
     nonneg_b [1%N; 2%N; 100%N; 101%N; 102%N] b' = false.
